@@ -18,11 +18,16 @@ backends = [
     ["nobackend",   "pysnark.nobackend"]
 ]
 
+backend_pkg = None
 for mod in backends:
     if mod[1] in sys.modules:
-        backend_name = mod[0]
-        backend = sys.modules[mod[1]]
-        break
+        pkg = mod[1].rsplit(".",1)[0]
+        if backend is None:
+            backend_name, backend, backend_pkg = mod[0], sys.modules[mod[1]], pkg
+        elif pkg == backend_pkg and pkg != "pysnark":
+            # importing a derived backend (libsnarkgg, zkifbellman, zkifbulletproofs) also loads
+            # its base module, which is listed first: the most specific loaded module wins
+            backend_name, backend = mod[0], sys.modules[mod[1]]
 
 if backend is None and "PYSNARK_BACKEND" in os.environ:
     for mod in backends:
